@@ -1,0 +1,18 @@
+// SPDX-FileCopyrightText: 2026 The Pion community <https://pion.ly>
+// SPDX-License-Identifier: MIT
+
+//go:build verif
+
+package rfc8888
+
+// VerifSizes returns the number of stream logs and the number of entries over all of them.
+// The recorder is owned by the loop goroutine: call it only while that goroutine is idle
+// (verification harness only).
+func (s *SenderInterceptor) VerifSizes() map[string]int {
+	entries := 0
+	for _, l := range s.recorder.streams {
+		entries += len(l.log)
+	}
+
+	return map[string]int{"streams": len(s.recorder.streams), "entries": entries}
+}
